@@ -40,6 +40,13 @@ Menu(rc) ==
   \cup {[op |-> "getf", k |-> (IF sp.src = "NF+2" THEN RecNF(rc) + 2 ELSE sp.n), src |-> sp.src] : sp \in {q \in IdxSpell : q.n <= MaxField}}
   \cup {[op |-> "getnf"]}
   \cup {[op |-> "incr", k |-> k1] : k1 \in {1, 2, 0 - 1, 0 - 4}}
+  \cup {[op |-> "augf", k |-> k1, d |-> 2] : k1 \in {2, 0 - 1} \cup (IF Rich THEN {1, 4} ELSE {})}
+  \cup {[op |-> "subf", k |-> k1, gl |-> g1, re |-> r1, rp |-> p1, text |-> Render(r1)]
+         : k1 \in {0, 2, 4} \cup (IF Rich THEN {1, 0 - 1} ELSE {}), g1 \in BOOLEAN,
+           r1 \in {Lit(c_b), Star(Lit(c_x))} \cup (IF Rich THEN {Cat(Lit(c_a), Opt(Lit(SP))), Lit(COMMA)} ELSE {}),
+           p1 \in {<<AMP>>, <<c_q>>} \cup (IF Rich THEN {<<>>, <<AMP, COMMA, AMP>>} ELSE {})}
+  \cup {[op |-> "getlinef", k |-> k1, s |-> s1] : k1 \in {0, 2, 4} \cup (IF Rich THEN {1, 0 - 1} ELSE {}),
+                                                  s1 \in {<<c_x, SP, c_x>>} \cup (IF Rich THEN {<<>>, <<c_a, COMMA, DQ>>} ELSE {})}
 
 VARIABLES rec, h
 vars == <<rec, h>>
